@@ -397,6 +397,7 @@ BASE_NS = {
     "max": max, "min": min, "len": len, "abs": abs, "range": range, "int": int, "all": all, "any": any,
     "float": float, "sum": sum, "round": round, "bool": bool, "list": list, "tuple": tuple, "isinstance": isinstance,
     "np": np,
+    "floor": lambda x: int(math.floor(_scalar(x))),
     "recursive": lambda *sig: (lambda f: f),     # marker decorator of recursive spec functions (plain recursion here)
 }
 
